@@ -57,6 +57,8 @@ def run(S):
     f6 += twopass.explore_content(S, max_atoms=2 if S.tier == 'quick' else 3)
     # chains of binary operators with blanks, line breaks and comments at every gap, inside a call / an array
     f6 += twopass.explore_binary(S, operands=2 if S.tier == 'quick' else 3)
+    # code blocks with blanks, line breaks, blank lines, semicolons and comments between the statements
+    f6 += twopass.explore_codeblock(S, max_stmts=2 if S.tier == 'quick' else 3)
     # dot chains `a.m1().m2` with blanks, line breaks and comments around every dot
     f6 += twopass.explore_dotchain(S, links=1 if S.tier == 'quick' else 2)
     # equations with letters, line-break backslashes, alignment points; blanks / line breaks at every gap and edge
